@@ -714,6 +714,14 @@ static int addRequest(KSI_AsyncClient *c, KSI_AsyncHandle *handle, void *req,
 		goto cleanup;
 	}
 
+	/* The configuration slot holds one request: a configuration request that has not been handed back yet
+	 * must not be replaced, it would never be returned and its count never be released. */
+	if (hasConfig && c->serverConf != NULL && c->serverConf->id == 0 &&
+			(c->serverConf->aggrReq != NULL || c->serverConf->extReq != NULL)) {
+		KSI_pushError(c->ctx, res = KSI_ASYNC_REQUEST_CACHE_FULL, "A configuration request is already outstanding.");
+		goto cleanup;
+	}
+
 	/* Cleanup the handle in case it has been added repeteadly. */
 	KSI_free(handle->raw);
 	handle->raw = NULL;
@@ -811,18 +819,24 @@ static int addRequest(KSI_AsyncClient *c, KSI_AsyncHandle *handle, void *req,
 			if (res != KSI_OK) goto cleanup;
 			tmpReq = NULL;
 
-			/* Copy the send state from the initial handle. */
+			/* Copy the send state from the initial handle. The handle belongs to the request it was split
+			 * from (same id): it is not a request of its own. */
 			confHandle->state = handle->state;
 			confHandle->reqTime = handle->reqTime;
+			confHandle->id = handle->id;
 		} else {
 			/* This is a server conf request. */
 			confHandle = handle;
 		}
 
+		/* A configuration notice that has not been handed out yet is superseded. */
+		if (c->serverConf != NULL && c->serverConf->state == KSI_ASYNC_STATE_PUSH_CONFIG_RECEIVED) c->received--;
 		KSI_AsyncHandle_free(c->serverConf);
 		c->serverConf = confHandle;
 		confHandle = NULL;
-		c->pending++;
+		/* The configuration part of a multi-payload request is handed out as a notice if the server answers
+		 * it; only a configuration request proper is counted as pending. */
+		if (!hasRequest) c->pending++;
 	}
 
 	res = KSI_OK;
@@ -1109,7 +1123,7 @@ static int asyncClient_handleServerConfig(KSI_AsyncClient *c, KSI_Config *config
 			/* Server config has been requested by the user.
 			 * Update internal state, as the configuration has been received for the first time before the handle
 			 * could be returned to the user. */
-			c->pending--;
+			if (c->serverConf->id == 0) c->pending--;
 			c->received++;
 		}
 		/* Clear previous response if present, as it will be renewed. */
